@@ -433,4 +433,199 @@ def _extra():
     return "\n".join(chunks), status
 
 
-EXTRA["C17"] = _extra
+# ---- forward shape programs (AST of `forward` interpreted on instantiated modules; see c17_forward.py) ---------------
+def forward_specs():
+    """[(lean name, fallback Lean term, thunk building (module, hooked modules, number of tensor inputs))]"""
+    def unet_hooks(u):
+        return list(u.down_sample_layers) + [u.conv] + list(u.up_transpose_conv) + list(u.up_conv)
+
+    specs = []
+
+    def add(name, fallback, build):
+        specs.append((name, f"Shapes.expand ({fallback})", build))
+
+    def imports():
+        from direct.nn.conv.conv import Conv2d
+        from direct.nn.didn.didn import DIDN, DUB
+        from direct.nn.mwcnn.mwcnn import MWCNN
+        from direct.nn.recurrent.recurrent import Conv2dGRU, NormConv2dGRU
+        from direct.nn.resnet.resnet import ResNet
+        from direct.nn.unet.unet_2d import NormUnetModel2d, UnetModel2d
+        from direct.nn.unet.unet_3d import NormUnetModel3d, UnetModel3d
+        return locals()
+
+    for L in (1, 2, 3, 4, 5):
+        def b(L=L):
+            m = imports()["UnetModel2d"](2, 2, 2, L, 0.0)
+            return m, unet_hooks(m), 1
+        add(f"fw_unet2d_L{L}", f"Shapes.unet Shapes.UnetP.std {L}", b)
+    for L in (1, 2, 3, 4):
+        def b(L=L):
+            m = imports()["NormUnetModel2d"](2, 2, 2, L, 0.0)
+            return m, unet_hooks(m.unet2d) + [m.unet2d], 1
+        add(f"fw_normunet2d_L{L}", f"Shapes.normUnet Shapes.UnetP.std {L}", b)
+    for L in (1, 2, 3):
+        def b(L=L):
+            m = imports()["UnetModel3d"](2, 2, 2, L, 0.0)
+            return m, unet_hooks(m), 1
+        add(f"fw_unet3d_L{L}", f"Shapes.unet3d Shapes.UnetP.std {L}", b)
+    for L in (1, 2):
+        def b(L=L):
+            m = imports()["NormUnetModel3d"](2, 2, 2, L, 0.0)
+            return m, unet_hooks(m.unet3d) + [m.unet3d], 1
+        add(f"fw_normunet3d_L{L}", f"Shapes.normUnet3d Shapes.UnetP.std {L}", b)
+    for S, bn in [(1, False), (2, False), (3, False), (4, False), (5, False), (3, True)]:
+        def b(S=S, bn=bn):
+            m = imports()["MWCNN"](2, 2, num_scales=S, batchnorm=bn)
+            return m, [m.DWT, m.IWT] + list(m.down) + list(m.up), 1
+        add(f"fw_mwcnn_S{S}" + ("_bn" if bn else ""), f"Shapes.mwcnn Shapes.MwP.std {S}", b)
+    for e in (True, False):
+        def b(e=e):
+            m = imports()["DUB"](4, 4)
+            return m, ([c for _n, c in m.named_children()] if e else []), 1
+        add("fw_dub_" + ("hooked" if e else "plain"), f"Shapes.dub Shapes.DidnP.std {'true' if e else 'false'}", b)
+    for nd, nc in [(1, 1), (2, 3), (3, 2)]:
+        for skip in (False, True):
+            def b(nd=nd, nc=nc, skip=skip):
+                m = imports()["DIDN"](2, 2, hidden_channels=4, num_dubs=nd, num_convs_recon=nc, skip_connection=skip)
+                return m, [m.conv_in, m.down] + list(m.dubs) + [m.recon_block, m.recon_agg, m.conv, m.up2, m.conv_out], 1
+            add(f"fw_didn_{nd}_{nc}_{'skip' if skip else 'noskip'}",
+                f"Shapes.didn Shapes.DidnP.std {nd} {nc} {'true' if skip else 'false'}", b)
+    for nb, bn in [(1, True), (2, True), (3, True), (2, False)]:
+        def b(nb=nb, bn=bn):
+            m = imports()["ResNet"](hidden_channels=4, in_channels=2, num_blocks=nb, batchnorm=bn)
+            return m, [m.conv_in, m.resblocks, m.conv_out], 1
+        add(f"fw_resnet_B{nb}" + ("" if bn else "_nobn"), f"Shapes.resnet 3 1 {nb}", b)
+    for n in (1, 2, 3, 4):
+        for bn in (False, True):
+            def b(n=n, bn=bn):
+                m = imports()["Conv2d"](2, 2, 4, n_convs=n, batchnorm=bn)
+                return m, list(m.conv), 1
+            add(f"fw_conv_N{n}" + ("_bn" if bn else ""), f"Shapes.convNet 3 1 {'true' if bn else 'false'} {n}", b)
+    for repl in (True, False):
+        for inorm in (False, True):
+            for layers in (1, 2, 3):
+                def b(repl=repl, inorm=inorm, layers=layers):
+                    m = imports()["Conv2dGRU"](4, 4, 2, num_layers=layers, instance_norm=inorm, replication_padding=repl,
+                                               dense_connect=1 if layers == 2 else 0)
+                    return m, list(m.conv_blocks), 2
+                add(f"fw_gru_{'repl' if repl else 'zero'}_{'in' if inorm else 'noin'}_{layers}",
+                    f"Shapes.gru {'true' if repl else 'false'} {'true' if inorm else 'false'} {layers}", b)
+
+    def b():
+        m = imports()["NormConv2dGRU"](4, 4, 2, num_layers=2)
+        return m, list(m.convgru.conv_blocks), 2
+    add("fw_normgru_2", "Shapes.gru true false 2", b)
+    return specs
+
+
+def forward_programs():
+    """(lean text, status) for all forward programs; torch and the repo are imported here, lazily."""
+    chunks, status = [], {}
+    try:
+        import warnings
+        warnings.filterwarnings("ignore")
+        import boot  # noqa: F401
+        import torch  # noqa: F401
+
+        from .c17_forward import trace_forward
+        ok = None
+    except Exception as e:  # noqa: BLE001
+        ok = f"cannot import the implementation: {type(e).__name__}: {e}"
+    for name, fallback, build in forward_specs():
+        try:
+            if ok is not None:
+                raise Untranslatable(ok)
+            try:
+                mod, hooks, nin = build()
+            except Untranslatable:
+                raise
+            except Exception as e:  # noqa: BLE001
+                raise Untranslatable(f"cannot instantiate: {type(e).__name__}: {e}")
+            mod.eval()
+            try:
+                ops = trace_forward(mod, n_inputs=nin, hooked=hooks)
+            except Untranslatable:
+                raise
+            except Exception as e:  # noqa: BLE001
+                raise Untranslatable(f"interpreter error {type(e).__name__}: {e}")
+            chunks.append(f"/-- `forward` of `{type(mod).__name__}` interpreted on an instantiated module -/\n"
+                          f"def {name} : List Shapes.Op :=\n  [" + ", ".join(ops) + "]\n")
+            status[name] = "translated"
+        except Untranslatable as e:
+            chunks.append(f"/-- SKIPPED ({str(e)[:200]}) -/\ndef {name} : List Shapes.Op := {fallback}\n")
+            status[name] = f"skipped: {str(e)[:200]}"
+    return "\n".join(chunks), status
+
+
+def schedule_tables():
+    """block schedules of the unrolled zoo models, read from the AST of each `forward` (c17_sched.py)"""
+    chunks, status = [], {}
+    try:
+        import warnings
+        warnings.filterwarnings("ignore")
+        import boot  # noqa: F401
+
+        from props import zoo_common as Z
+
+        from .c17_sched import io_channels, scan_schedule
+        entries = Z.recons() + Z.recons3d()
+        err = None
+    except Exception as e:  # noqa: BLE001
+        entries, err = [], f"cannot import the implementation: {type(e).__name__}: {e}"
+        status["sched_tables"] = "skipped: " + err
+    perms = set()
+    dom_name = {0: ".image", 1: ".perCoil", 2: ".coilBatch"}
+    for e in entries:
+        name = "sched_" + Z.lean_ident(e.name)
+        fallback = None
+        try:
+            m = e.model()
+            term = Z.sched_term(e, m)
+            sch = Z.schedule(e, m)
+            if term is None or sch is None:
+                continue
+            fallback = f"Shapes.Sched.blocks ({term[0]}) {term[1]}"
+            calls = scan_schedule(m, sch[0])
+            cache = {}
+            items = []
+            for mod, dom, perm in calls:
+                if id(mod) not in cache:
+                    cache[id(mod)] = io_channels(mod)
+                cin, cout = cache[id(mod)]
+                items.append(f"⟨{dom_name[dom]}, {cin}, {cout}⟩")
+                perms.add((dom, tuple(perm) if perm is not None else ()))
+            chunks.append(f"/-- block schedule of `{e.name}` read from `{type(m).__name__}.forward` -/\n"
+                          f"def {name} : List Shapes.Block :=\n  [" + ", ".join(items) + "]\n")
+            status[name] = "translated"
+        except Untranslatable as ex:
+            if fallback is None:
+                continue
+            chunks.append(f"/-- SKIPPED ({str(ex)[:160]}) -/\ndef {name} : List Shapes.Block := {fallback}\n")
+            status[name] = f"skipped: {str(ex)[:160]}"
+        except Exception as ex:  # noqa: BLE001
+            if fallback is None:
+                continue
+            chunks.append(f"/-- SKIPPED ({type(ex).__name__}) -/\ndef {name} : List Shapes.Block := {fallback}\n")
+            status[name] = f"skipped: {type(ex).__name__}: {str(ex)[:120]}"
+    if err is None:
+        rows = sorted(perms)
+        chunks.append("/-- (domain, permute literal applied to the argument of the denoiser) pairs found across the zoo -/\n"
+                      "def sched_permutes : List (Nat × List Nat) :=\n  ["
+                      + ", ".join(f"({d}, {list(p)})" for d, p in rows) + "]\n")
+        status["sched_permutes"] = "translated"
+    else:
+        chunks.append("def sched_permutes : List (Nat × List Nat) := [(0, [0, 3, 1, 2]), (0, [0, 4, 1, 2, 3]), (1, [0, 1, 4, 2, 3])]\n")
+    return "\n".join(chunks), status
+
+
+def _extra_all():
+    t1, s1 = _extra()
+    t2, s2 = forward_programs()
+    t3, s3 = schedule_tables()
+    s1.update(s2)
+    s1.update(s3)
+    return t1 + "\n" + t2 + "\n" + t3, s1
+
+
+EXTRA["C17"] = _extra_all
